@@ -23,7 +23,7 @@ pub fn run(sink: &mut Sink, rng: &mut Rng, args: &Args) {
     let rt = rt();
     // ------------------------------------------------------------ flat::compute_distance
     let mut s = Stream::new("flat", REQ, "chk_arrow", "metric * aty * list Z * aty * list Z * nat * list bool", "outcome (list (option xval))");
-    s.shard = 60;
+    s.shard = 400;
     for _ in 0..args.vol(60, 600) {
         let m = *rng.pick(&[Metric::L2, Metric::Dot, Metric::Hamming]);
         let (aty, t) = if m == Metric::Hamming { (ATy::U8, Ty::U8) } else { *rng.pick(&[(ATy::F32, Ty::F32), (ATy::F16, Ty::F16), (ATy::F64, Ty::F64)]) };
@@ -86,7 +86,7 @@ pub fn run(sink: &mut Sink, rng: &mut Rng, args: &Args) {
 
     // ------------------------------------------------------------ Dataset flat KNN
     let mut s = Stream::new("knn", REQ, "chk_find", "ety * metric * list (option Z) * list (option Z) * nat", "outcome (list (N * xval))");
-    s.shard = 40;
+    s.shard = 200;
     let dir = tempfile::tempdir().unwrap();
     for di in 0..args.vol(4, 24) {
         let dim = *rng.pick(&[3usize, 8, 13, 16, 33, 64]);
